@@ -88,7 +88,7 @@ Print Assumptions c03_refuted_in_known_class.
 Theorem c03_hrtb_binder_kept : forall tg g name d tg' w b,
   find_deps_generic_bounds tg g name = Some (d, tg') -> nodup_str (tparam_names g) = true ->
   In w (where_items g) -> wp_is_type w = true -> wp_bounded w = BPath false false 1 name ->
-  In b (trait_bounds (wp_bounds w)) -> takes_binder b = true ->
+  In b (trait_bounds (life_names g) (wp_bounds w)) -> takes_binder b = true ->
   In (wp_binder w ++ b) (deps_bounds_of d).
 Proof. exact hrtb_binder_kept. Qed.
 Print Assumptions c03_hrtb_binder_kept.
@@ -98,20 +98,40 @@ Print Assumptions c03_hrtb_binder_kept.
 Theorem c03_binder_shapes :
   (forall binder inner, takes_binder inner = true -> with_binder binder [TG Paren inner] = [TG Paren (binder ++ inner)]) /\
   (forall binder b, takes_binder b = false -> (forall inner, b <> [TG Paren inner]) -> with_binder binder b = b) /\
-  (forall w, wp_binder w = [] -> pred_bounds w = trait_bounds (wp_bounds w)).
+  (forall lts w, wp_binder w = [] -> pred_bounds lts w = trait_bounds lts (wp_bounds w)).
 Proof. exact (conj with_binder_paren (conj with_binder_other pred_bounds_no_binder)). Qed.
 Print Assumptions c03_binder_shapes.
 
 (** ... and the dependency's bounds are exactly its inline bounds followed, predicate by predicate, by these. *)
 Theorem c03_deps_bounds_exact : forall tg g name d tg',
   find_deps_generic_bounds tg g name = Some (d, tg') -> nodup_str (tparam_names g) = true ->
-  deps_bounds_of d = flat_map (pcontrib name) (p_items (g_params g)) ++ flat_map (contrib name) (where_items g).
+  deps_bounds_of d = flat_map (pcontrib (life_names g) name) (p_items (g_params g)) ++ flat_map (contrib (life_names g) name) (where_items g).
 Proof. exact deps_bounds_exact. Qed.
 Print Assumptions c03_deps_bounds_exact.
 
+(** Which of the dependency's declared bounds are stated on [Self] (inline, [impl A + B], or in a where predicate): all of them, in
+    source order, except relaxed bounds ([?Sized], F16) and lifetime parameters of the function itself ([D: 'a], F25: declared on
+    the method, not on the impl) — nothing else is dropped, nothing is added. *)
+Theorem c03_bounds_carried : forall lts l b,
+  In b (trait_bounds lts l) <-> In b l /\ is_relaxed b = false /\ is_fn_lifetime lts b = false.
+Proof. exact trait_bounds_spec. Qed.
+Print Assumptions c03_bounds_carried.
+
+Theorem c03_fn_lifetime_bound : forall lts b,
+  is_fn_lifetime lts b = true <-> exists n, b = [pc "'"; TId n] /\ In n lts.
+Proof. exact is_fn_lifetime_spec. Qed.
+Print Assumptions c03_fn_lifetime_bound.
+
+(** [fn l<'x, D: A + 'x + 'static + ?Sized>]: [A] and ['static] are carried *)
+Example c03_bounds_example :
+  trait_bounds ["x"]%string [[TId "A"]; [pc "'"; TId "x"]; [pc "'"; TId "static"]; [pc "?"; TId "Sized"]]%string
+  = [[TId "A"]; [pc "'"; TId "static"]]%string.
+Proof. vm_compute. reflexivity. Qed.
+Print Assumptions c03_bounds_example.
+
 (** [where for<'x> D: R<'x> + 'static + (P<'x>)] on the dependency [D] *)
 Example c03_hrtb_example :
-  pred_bounds (mkWP true (BPath false false 1 "D")
+  pred_bounds [] (mkWP true (BPath false false 1 "D")
                  [[TId "R"; pc "<"; pc "'"; TId "x"; pc ">"]; [pc "'"; TId "static"]; [TG Paren [TId "P"; pc "<"; pc "'"; TId "x"; pc ">"]]]
                  [] [TId "for"; pc "<"; pc "'"; TId "x"; pc ">"])
   = [[TId "for"; pc "<"; pc "'"; TId "x"; pc ">"; TId "R"; pc "<"; pc "'"; TId "x"; pc ">"];
